@@ -53,6 +53,7 @@ def run(prog, R, tier="quick", only_rule=None):
     c10d(prog, R)
     c10e(prog, R)
     c10f(prog, R)
+    c10g(prog, R)
 
 
 def check_set(prog):
@@ -375,3 +376,43 @@ def c10f(prog, R):
     if n < 80:
         r.anchor_missing("calls that may fail an integrity check (found %d)" % n)
     r.floor(1)
+
+
+def c10g(prog, R, rid="C10.g"):
+    """Whether a directory is recovered or initialised afresh is decided by the *existence* of `current` alone.  Any decision
+    on its content (length, parse result) that leads to create_new turns a damaged pointer file into a silently empty tree."""
+    from rules.engine import control_deps_transitive, switch_condition
+    r = R.rule(rid, "an existing `current` always leads to recovery (a damaged one fails, it never means `new tree`)", "K")
+    f = prog.fn("tree::Tree::open")
+    if f is None:
+        r.anchor_missing("tree::Tree::open")
+        return
+    cn = [c for c in f.calls if c.sres.endswith("Tree::create_new")]
+    rc = [c for c in f.calls if c.sres.endswith("Tree::recover")]
+    if not cn or not rc:
+        r.anchor_missing("create_new / recover calls in Tree::open")
+        return
+    for c in cn:
+        other = []
+        n_exists = 0
+        for (a, s_) in control_deps_transitive(f, c.bb):
+            t = f.blocks[a]["term"]
+            if t["k"] != "switch":
+                continue
+            for o in switch_condition(f, a):
+                if o.kind == "call" and o.extra.sres.endswith("Path::try_exists"):
+                    n_exists += 1
+                elif o.kind == "discr" and "ControlFlow" in str(o.what):
+                    pass        # the `?` of try_exists
+                else:
+                    other.append(repr(o))
+        r.check(n_exists >= 1 and not other, "tree::Tree::open|create_new depends on try_exists(current) only",
+                "Tree::open reaches create_new under a condition other than `current does not exist` (%s): a truncated or damaged "
+                "pointer file would open as a fresh, empty tree" % sorted(set(other)), f.where(c.bb), str(sorted(set(other))))
+    # the file whose existence is tested is the one recovery reads
+    h = prog.hir.get("tree::Tree::open")
+    from rules.engine import hir_walk as _w, hir_expr_str as _s
+    tested = [_s(n, 160) for n in _w(h["body"]) if n.get("k") == "mcall" and n.get("m") == "try_exists"] if h else []
+    r.check(any("CURRENT_VERSION_FILE" in x for x in tested), "tree::Tree::open|the tested file is CURRENT_VERSION_FILE",
+            "the existence test is not on the `current` pointer file", "", str(tested))
+    r.floor(2)
